@@ -99,6 +99,10 @@ def batchEvalLoop (E : Env) (r : Nat) (exprs : List Exp) (extra : List ZCon) (ho
       | none => pure acc.reverse
       | some (vals, keys) => do
           let rv := exprs.map fun e => e.val (asgOf vals)
+          -- NB `_primitive_from_model` evaluates with model_completion=True, which adds constants of `expr` the
+          -- Z3 model did not mention (those its lazy evaluator visits, with Z3's default 0) to the very model
+          -- object `_generic_model(solver.model())` reads afterwards: `keys` of the oracle answer is the key set
+          -- at THAT moment (recorded there by the harness)
           hook (PModel.ofKeys vals keys)
           if rem ≠ 0 then
             let o ← getObj r
